@@ -5,6 +5,7 @@ pub mod utf8;
 pub mod related;
 pub mod textops;
 pub mod store;
+pub mod data;
 
 pub fn run(family: &str, opts: &Opts) -> Option<Report> {
     // "family@m<interval>s<0|1>" runs the family under a store configuration variant
@@ -32,6 +33,7 @@ fn run_base(family: &str, opts: &Opts) -> Option<Report> {
         "related" => Some(related::run(opts)),
         "textops" => Some(textops::run(opts)),
         "store" => Some(store::run(opts)),
+        "data" => Some(data::run(opts)),
         _ => None,
     }
 }
@@ -44,6 +46,7 @@ pub fn exec_line(line: &str) -> Option<String> {
         Some("u8") => Some(utf8::exec_line(line)),
         Some("find") => Some(related::exec_line(line)),
         Some("txt") => Some(textops::exec_line(line)),
+        Some("dv") => Some(data::exec_line(line)),
         _ => None,
     }
 }
